@@ -9,18 +9,26 @@ Lemmas: Osmium/Lemmas/RelMgr.lean (steps), RelMgrInv.lean (run-long invariant `I
 counter = outstanding wanted references, relation slots of the stash, handle ranges, skeleton of
 the member databases, completion log), RelMgrSpec.lean (whole runs).
 
-GLOBAL theorems, for ALL configurations (both values of `fixed`), relation sets, interest
-predicates and histories in the domain `Dom` (unique relation ids; member stream accepted by
-CheckOrder, i.e. strictly ascending, and duplicate free):
+GLOBAL theorems, for ALL configurations, relation sets, interest predicates and histories in the
+domain `Dom` (unique relation ids; member stream accepted by CheckOrder, i.e. strictly ascending,
+and duplicate free):
   completed_exactly_once, completed_at_last_member, never_completed_without_wanted_members,
   callbacks_are_the_stored_relations, incomplete_listed, not_in_any_relation_reported,
-  flush_threshold_irrelevant.
-Step-level (`_partial`, with what is missing stated at each):
-  members_available_in_callback_partial, shared_member_kept_until_last_partial,
-  released_lookup_absent_partial; completed_exactly_once_partial is the loop step from which the
-  global one is built.  Regression witness: released_lookup_absent_false (code before 5127b06).
+  flush_threshold_irrelevant — both values of `fixed`;
+  members_available_in_callback, shared_member_kept_until_last, stored_members_are_needed,
+  not_arrived_lookup_absent, query_events_are_lookups — both values of `fixed` (the run-long member-handle invariant of
+  Lemmas/RelMgrHandles*.lean: an element's handle is invalid or points to the live stash copy of
+  the arrived object of its type and id; an element is non-removed iff its relation has not been
+  completed; inside `remove_members` the non-removed elements of the relation are its members not
+  yet processed, with multiplicity; all elements of a range carry the same handle; an object item
+  of the stash is live only while a non-removed element refers to it);
+  released_lookup_absent — `fixed = true` (the repaired `remove()`), with the regression witness
+  released_lookup_absent_false for the code before 5127b06.
+completed_exactly_once_partial is the loop step from which the global theorem is built; the
+step-level lemmas about lookups are in Lemmas/RelMgrHandlesSteps.lean.
 -/
-import Osmium.Lemmas.RelMgrSpec
+import Osmium.Lemmas.RelMgrHandlesSpec
+import Osmium.Lemmas.RelMgrHandlesSteps
 
 namespace Osmium.RelMgr.C11
 
@@ -125,20 +133,6 @@ theorem not_in_any_relation_reported (c : Cfg) (rels : List Rel) (ops : List Op)
       ((k, id) ∈ seen c ops ∧ ∀ r ∈ interesting c rels, (k, id) ∉ wanted c r) :=
   notIn_iff c rels ops d k id
 
-/-- FULL STATEMENT (not yet a theorem, see `members_available_in_callback_partial`): inside the
-    callback every wanted member is found and is the input object -/
-def members_available_in_callback (c : Cfg) : Prop :=
-  ∀ rels ops, Domain c rels ops →
-    (∀ r ∈ interesting c rels, ∀ w ∈ wanted c r, w.2 ≠ 0) →
-    ∀ pos rid cont looks,
-    Event.complete pos rid cont looks ∈ (run c rels ops).events →
-    ∀ ml ∈ looks, ∃ o ∈ seenObjs c ops, o.kind = ml.1.kind ∧ o.id = ml.1.ref ∧ ml.2 = .found o
-
-/-- FULL STATEMENT (not yet a theorem for `fixed = true`, refuted for `fixed = false`): a lookup
-    never yields a pointer into a released stash entry -/
-def released_lookup_absent (c : Cfg) : Prop :=
-  ∀ rels ops, Domain c rels ops → ∀ k id, Event.query k id .wild ∉ (run c rels ops).events
-
 /-! ### Global theorem: output volume, flush threshold and flush callback are irrelevant -/
 
 /-- Whatever the completion callback writes into the output buffer, whatever the flush
@@ -226,67 +220,101 @@ theorem completion_is_local (c : Cfg) (s : State) (pos : Nat) :
 
 /-! ### Members inside the callback -/
 
-/-- `_partial` of `members_available_in_callback` — the two steps it consists of:
-    (1) the lookups the callback performs are evaluated in the state BEFORE any member of the
-    relation is released (`handle_complete_relation` calls `complete_relation` first), one per
-    member with `ref ≠ 0`, in member order; (2) a lookup whose range starts with a live handle
-    returns exactly the stored object.
-    MISSING for the full statement: the member-handle part of the run-long invariant ("all
-    elements of the range of an arrived object carry its handle and the stash item is live while
-    a non-removed element exists"), which needs the coupling "non-removed elements of p in a
-    range = members of p not yet removed" inside `removeMembers`; until then the clause is
-    covered on every run by the oracle monitor `member-not-available-in-callback` (plain, ASan
-    and assert builds). -/
-theorem members_available_in_callback_partial (c : Cfg) (s : State) (pos : Nat) (r : Rel)
-    (hrel : s.relAt pos = some r) :
-    (handleComplete c s pos).log =
-      Event.complete pos r.id r.content
-        ((r.members.filter (fun m => m.ref ≠ 0)).map (fun m => (m, s.lookup m.kind m.ref))) :: s.log ∧
-    (∀ (k : Kind) (id : Int) (e : Elem) (rest : List Elem) (o : Obj), id ≠ 0 →
-      (splitRange (s.getDb k) id).2.1 = e :: rest → e.h ≠ 0 → stashGet s.stash e.h = some (.obj o) →
-      s.lookup k id = .found o) := by
-  constructor
-  · unfold handleComplete
-    rw [hrel]
-    simp only []
-    rw [relRemove_log, (removeMembers_frame c r.id r.members _).2, (possiblyFlush_frame c _).2]
-    rfl
-  · intro k id e rest o hid hr hh hst
-    unfold State.lookup dbLookup
-    rw [if_neg hid, hr]
-    simp [hh, hst]
+/-- Inside the completion callback every wanted member is available and is the input object:
+    for every `complete_relation(r)` of a run, the lookups performed at callback time (state
+    before any member of `r` is released) are one per wanted member of `r` with `ref ≠ 0`, in
+    member order (`get_member_*(0)` is nullptr by definition), and each returns the object of that
+    type and id that arrived in the input.  All configurations (both variants of `remove()`). -/
+theorem members_available_in_callback (c : Cfg) (rels : List Rel) (ops : List Op) (d : Domain c rels ops)
+    (pos : Nat) (rid : Int) (cont : Nat) (looks : List (Member × Lookup))
+    (h : Event.complete pos rid cont looks ∈ (run c rels ops).events) :
+    ∃ r, (interesting c rels)[pos]? = some r ∧ rid = r.id ∧
+      looks.map (fun ml => (ml.1.kind, ml.1.ref)) = (wanted c r).filter (fun w => w.2 ≠ 0) ∧
+      ∀ ml ∈ looks, ∃ o ∈ seenObjs c ops, o.kind = ml.1.kind ∧ o.id = ml.1.ref ∧ ml.2 = .found o := by
+  obtain ⟨r, hr, h1, h2⟩ := callback_lookups c rels ops d pos rid cont looks h
+  obtain ⟨r', hr', hid, _⟩ := callbacks_are_the_stored_relations c rels ops d _ h
+  rw [hr] at hr'
+  cases hr'
+  exact ⟨r, hr, hid, h1, h2⟩
 
 /-! ### Shared members -/
 
-/-- `_partial` of `shared_member_kept_until_last` — one `remove(member_id, relation_id)`:
-    the stash item is released exactly when the range has ONE non-removed element left
-    (references counted with multiplicity, over all relations and duplicates inside one
-    relation); otherwise the stash is untouched, so the object stays retrievable.
-    MISSING for the global statement ("stays available until the last relation needing it has
-    been completed"): the member-handle part of the run-long invariant, see
-    `members_available_in_callback_partial`; covered on every run by the oracle monitor
-    `shared-member-released-early` and the members-database counts. -/
-theorem shared_member_kept_until_last_partial (c : Cfg) (s : State) (k : Kind) (id relid : Int) :
-    (countNotRemoved (splitRange (s.getDb k) id).2.1 ≠ 1 → (dbRemove c s k id relid).stash = s.stash) ∧
-    (∀ e0 rest, (splitRange (s.getDb k) id).2.1 = e0 :: rest → countNotRemoved (e0 :: rest) = 1 →
-      (dbRemove c s k id relid).stash = stashRemove s.stash e0.h) := by
-  unfold dbRemove
-  generalize splitRange (s.getDb k) id = sr
-  obtain ⟨pre, mid, post⟩ := sr
-  simp only []
-  constructor
-  · intro h
-    cases mid with
-    | nil => rfl
-    | cons e0 rest =>
-      have : (countNotRemoved (e0 :: rest) == 1) = false := by simpa using h
-      cases k <;> simp [State.setDb, this]
-  · intro e0 rest hr h1
-    subst hr
-    have : (countNotRemoved (e0 :: rest) == 1) = true := by simpa using h1
-    cases k <;> simp [State.setDb, this]
+/-- An object stays retrievable until the last relation needing it has been completed: at every
+    point `n` of a history in the domain, an object `o` that has arrived and that is wanted by
+    some interesting relation `r` which is not yet complete (some wanted member of `r` has not
+    arrived) is found by `get_member_*` and is the input object — however many other relations
+    referencing `o` have been completed and released their reference before, and however often
+    `r` or the others reference it (`wanted` is with multiplicity).  All configurations. -/
+theorem shared_member_kept_until_last (c : Cfg) (rels : List Rel) (ops : List Op) (d : Domain c rels ops) (n : Nat)
+    (o : Obj) (ho : o ∈ seenObjs c (ops.take n)) (hid : o.id ≠ 0)
+    (r : Rel) (hr : r ∈ interesting c rels) (hw : (o.kind, o.id) ∈ wanted c r)
+    (hnc : ¬ complete c (ops.take n) r) :
+    (run c rels (ops.take n)).lookup o.kind o.id = .found o := by
+  have dn := d.take n
+  apply lookup_kept c rels _ dn o ho hid r hr hw
+  intro hmem
+  have hcnt := completed_exactly_once c rels _ dn r hr (List.ne_nil_of_mem hw)
+  rw [if_neg hnc] at hcnt
+  exact absurd (List.count_pos_iff.mpr hmem) (by omega)
+
+/-- ... and not longer: at every point `n` of a history in the domain, every object item that is
+    live in the stash of the members databases is the copy of an arrived object that some
+    interesting relation wants and that is not yet complete (objects with id 0 are never released:
+    `remove_members` skips `ref == 0`).  All configurations. -/
+theorem stored_members_are_needed (c : Cfg) (rels : List Rel) (ops : List Op) (d : Domain c rels ops) (n : Nat)
+    (h : Nat) (o : Obj) (hg : stashGet (run c rels (ops.take n)).stash h = some (.obj o)) :
+    o ∈ seenObjs c (ops.take n) ∧ ∃ r ∈ interesting c rels, (o.kind, o.id) ∈ wanted c r ∧
+      (o.id = 0 ∨ ¬ complete c (ops.take n) r) := by
+  have dn := d.take n
+  obtain ⟨h1, r, hr, hw, h2⟩ := object_items_needed c rels _ dn h o hg
+  refine ⟨h1, r, hr, hw, ?_⟩
+  rcases h2 with h2 | h2
+  · exact Or.inl h2
+  · right
+    intro hc
+    have hcnt := completed_exactly_once c rels _ dn r hr (List.ne_nil_of_mem hw)
+    rw [if_pos hc] at hcnt
+    exact h2 (List.count_pos_iff.mp (by omega))
+
+/-- Before an object has arrived its lookup is nullptr, whatever wants it.  All configurations. -/
+theorem not_arrived_lookup_absent (c : Cfg) (rels : List Rel) (ops : List Op) (d : Domain c rels ops) (n : Nat)
+    (k : Kind) (id : Int) (hns : (k, id) ∉ seen c (ops.take n)) :
+    (run c rels (ops.take n)).lookup k id = .absent :=
+  lookup_not_arrived c rels _ (d.take n) k id hns
+
+/-- The `get_member_*` calls made between two objects (the `query` ops of a history) return the
+    lookup in the state the run has reached at that op — so the three lookup theorems, stated for
+    every point `n` of a history, describe every logged query. -/
+theorem query_events_are_lookups (c : Cfg) (rels : List Rel) (ops : List Op) (k : Kind) (id : Int) (res : Lookup)
+    (h : Event.query k id res ∈ (run c rels ops).events) :
+    ∃ n, ops[n]? = some (.query k id) ∧ res = (run c rels (ops.take n)).lookup k id :=
+  Osmium.RelMgr.query_events_are_lookups c rels ops k id res h
 
 /-! ### F7: lookups after release -/
+
+/-- FULL STATEMENT of the clause "released objects are reported as absent": no `get_member_*`
+    call of a run ever returns a pointer computed from a released stash entry, and at every point
+    `n` of the history the lookup of an id all of whose interested relations are complete (in
+    particular of an id no relation wants) is nullptr — like any unknown id. -/
+def ReleasedLookupAbsent (c : Cfg) : Prop :=
+  ∀ rels ops, Domain c rels ops →
+    (∀ k id, Event.query k id .wild ∉ (run c rels ops).events) ∧
+    (∀ n k id, (∀ r ∈ interesting c rels, (k, id) ∈ wanted c r → complete c (ops.take n) r) →
+      (run c rels (ops.take n)).lookup k id = .absent)
+
+/-- The clause holds for the repaired `MembersDatabaseCommon::remove` (`fixed = true`, /repo
+    commit 5127b06: the handles of the range are invalidated together with the stash item), for
+    all member-type switches, interest predicates, relation sets and histories in the domain. -/
+theorem released_lookup_absent (c : Cfg) (hfix : c.fixed = true) : ReleasedLookupAbsent c := by
+  intro rels ops d
+  refine ⟨fun k id => no_wild_queries c hfix rels ops d k id, ?_⟩
+  intro n k id hall
+  have dn := d.take n
+  apply lookup_released c hfix rels _ dn k id
+  intro r hr hw
+  have hcnt := completed_exactly_once c rels _ dn r hr (List.ne_nil_of_mem hw)
+  rw [if_pos (hall r hr hw)] at hcnt
+  exact List.count_pos_iff.mp (by omega)
 
 def cfgAll (fixed : Bool) : Cfg :=
   { tn := true, tw := true, tr := true, newRel := fun _ => true, newMem := fun _ _ _ => true,
@@ -305,58 +333,9 @@ theorem f7_domain (fixed : Bool) : Domain (cfgAll fixed) f7Rels f7Ops := by
     (`fixed = false`) the clause "a later lookup reports released objects as absent" is FALSE:
     the handle stays in the element and `get_object` computes a pointer from the removed stash
     entry. -/
-theorem released_lookup_absent_false : ¬ released_lookup_absent (cfgAll false) := by
+theorem released_lookup_absent_false : ¬ ReleasedLookupAbsent (cfgAll false) := by
   intro h
-  exact h f7Rels f7Ops (f7_domain false) .way 10 (by decide +kernel)
-
-/-- `_partial` of `released_lookup_absent`, for the REPAIRED `remove()` (`fixed = true`:
-    the handles of the range are invalidated together with the stash item), on databases
-    sorted by member id: right after the `remove` call that releases the object, a lookup of
-    its id gives `absent` (nullptr).  MISSING for the global statement `released_lookup_absent
-    (fixed = true)`: the invariant "every element handle is invalid or refers to a live object
-    item with the element's type and id" threaded through the chain dbRemove → … → runOps (its
-    preservation by `dbRemove` uses exactly this theorem's argument); covered on every run by the
-    oracle monitor `members-db-lookup-after-release` (stable key of F7) incl. the ASan build. -/
-theorem released_lookup_absent_partial (c : Cfg) (hfix : c.fixed = true) (s : State) (k : Kind) (id relid : Int)
-    (hs : SortedById (s.getDb k))
-    (hlast : countNotRemoved (splitRange (s.getDb k) id).2.1 = 1) :
-    (dbRemove c s k id relid).lookup k id = .absent := by
-  have hsplit := splitRange_sorted (s.getDb k) id hs
-  have hget : ∀ (st : Stash) (ub : Bool) (es : List Elem),
-      ((({ s with stash := st, ub := ub } : State).setDb k es).getDb k = es) := by
-    intro st ub es; cases k <;> rfl
-  unfold dbRemove
-  rw [hsplit] at hlast ⊢
-  simp only [] at hlast ⊢
-  cases hm : (s.getDb k).filter (fun e => e.mid == id) with
-  | nil => rw [hm] at hlast; simp [countNotRemoved] at hlast
-  | cons e0 rest =>
-    rw [hm] at hlast
-    have h1 : (countNotRemoved (e0 :: rest) == 1) = true := by simpa using hlast
-    simp only [h1, hfix, Bool.and_self, if_true]
-    unfold State.lookup
-    split
-    · rfl
-    · rw [hget]
-      unfold dbLookup
-      have hmid2 : ∀ e ∈ markFirst (fun p => Option.map (fun x => x.id) (s.relAt p)) relid
-          (List.map (fun e : Elem => { e with h := 0 }) (e0 :: rest)), e.mid = id ∧ e.h = 0 := by
-        apply markFirst_keeps _ _ (fun m h => m = id ∧ h = 0)
-        intro e he
-        rw [List.mem_map] at he
-        obtain ⟨e', he', rfl⟩ := he
-        have : e' ∈ (s.getDb k).filter (fun e => e.mid == id) := by rw [hm]; exact he'
-        have := (List.mem_filter.mp this).2
-        exact ⟨by simpa using this, rfl⟩
-      rw [splitRange_rebuild _ _ _ id
-        (fun e he => by simpa using (List.mem_filter.mp he).2)
-        (fun e he => (hmid2 e he).1)
-        (fun e he => by simpa using (List.mem_filter.mp he).2)]
-      split
-      · rfl
-      · rename_i e es hme
-        have := (hmid2 e (by rw [hme]; exact List.mem_cons_self ..)).2
-        simp [this]
+  exact (h f7Rels f7Ops (f7_domain false)).1 .way 10 (by decide +kernel)
 
 /-! ### Non-vacuity and witnesses (kernel evaluation of the model on concrete histories) -/
 
@@ -388,10 +367,34 @@ example : (run (cfgAll false) demoRels demoOps).events =
 example : ∃ s : State, missingAt s 0 = some 2 ∧ [0, 0].count 0 ≤ 2 :=
   ⟨{ rdb := #[⟨1, 2⟩] }, by decide, by decide⟩
 
-/-- the hypotheses of `released_lookup_absent_partial` are satisfiable: the state of the F7
-    witness before the release (repaired code) -/
-example : ∃ s : State, SortedById (s.getDb .way) ∧ countNotRemoved (splitRange (s.getDb .way) 10).2.1 = 1 :=
-  ⟨{ wdb := [⟨10, some 0, 0, 2⟩] }, by simp [SortedById, State.getDb], by decide⟩
+example : Domain (cfgAll true) demoRels demoOps := ⟨by decide +kernel, by decide +kernel, by decide +kernel⟩
+
+/-- the hypotheses of `shared_member_kept_until_last` are satisfiable: at the end of the demo
+    history way 10 has arrived, relations 1 and 2 (which reference it) are completed, relation 4
+    references it too and is not complete (way 99 never arrives) -/
+example : ∃ (n : Nat) (o : Obj) (r : Rel), o ∈ seenObjs (cfgAll true) (demoOps.take n) ∧ o.id ≠ 0 ∧
+    r ∈ interesting (cfgAll true) demoRels ∧ (o.kind, o.id) ∈ wanted (cfgAll true) r ∧
+    ¬ complete (cfgAll true) (demoOps.take n) r :=
+  ⟨6, ⟨.way, 10, 100⟩, ⟨4, 0, [⟨.way, 10⟩, ⟨.way, 99⟩]⟩, by decide +kernel⟩
+
+/-- the hypothesis of the second part of `ReleasedLookupAbsent` is satisfiable non-trivially:
+    in the F7 history relation 1 wants way 10 and is complete after the first op -/
+example : (∀ r ∈ interesting (cfgAll true) f7Rels, (Kind.way, (10 : Int)) ∈ wanted (cfgAll true) r →
+      complete (cfgAll true) (f7Ops.take 2) r) ∧
+    ∃ r ∈ interesting (cfgAll true) f7Rels, (Kind.way, (10 : Int)) ∈ wanted (cfgAll true) r := by
+  decide +kernel
+
+/-- `stored_members_are_needed` is not vacuous: at the end of the demo history the stash still
+    holds way 10 (relation 4 needs it) -/
+example : stashGet (run (cfgAll true) demoRels (demoOps.take 6)).stash 6 = some (.obj ⟨.way, 10, 100⟩) := by
+  decide +kernel
+
+/-- `not_arrived_lookup_absent`: way 10 has not arrived after the first two ops of the demo -/
+example : (Kind.way, (10 : Int)) ∉ seen (cfgAll true) (demoOps.take 2) := by decide +kernel
+
+/-- the demo history with the repaired `remove()`: same events -/
+example : (run (cfgAll true) demoRels demoOps).events = (run (cfgAll false) demoRels demoOps).events := by
+  decide +kernel
 
 /-- F7 witness: current code gives a wild pointer, repaired code gives nullptr -/
 example : (run (cfgAll false) f7Rels f7Ops).events =
